@@ -126,8 +126,18 @@ def one_now(R, ctx):
                 f"DeferredNow::{m} does not go through now(): its reading is not the cached one", where=mb.loc())
 
 
+DOC_FIELDS = {     # written from the rustdoc of src/formats.rs (example lines), not from the code
+    'default_format': {'level', 'module_path', 'args'},
+    'opt_format': {'now', 'level', 'file', 'line', 'args'},
+    'detailed_format': {'now', 'level', 'module_path', 'file', 'line', 'args'},
+    'with_thread': {'now', 'thread', 'level', 'file', 'line', 'args'},
+    'json_format': {'now', 'thread', 'level', 'module_path', 'file', 'line', 'args'},
+}
+
+
 def message_once(R, ctx):
     f, cg = ctx.f, ctx.cg
+    fields_used = {}
     for p in cg.format_fns:
         b = f.bodies[p]
         pv = ctx.ip.prov(p)
@@ -149,8 +159,26 @@ def message_once(R, ctx):
         ok = len(sinks) == 1 and len(args_calls) == 1 and must_pass(b, sinks, avoid=brk)
         R.check('R20.4', f"{p}|message-once", ok, "record.args() rendered through Display exactly once on every successful path",
                 f"format function {p} renders the message {len(sinks)} times (record.args() read {len(args_calls)} times) or not on every path", where=b.loc())
+        # the fields each provided format is documented to show (rustdoc examples: `INFO [module] text`, `[time] INFO [file:line] text`,
+        # `[time] INFO [module] file:line: text`, `[time] T[thread] INFO [file:line] text`), taken from the record's accessors / the now
+        # parameter / the current thread; and `a colored version of X` shows what X shows
+        short = p.split('::')[-1]
+        used = {callee_name(t).split('::')[-1] for bb, t in b.calls() if callee_name(t).startswith("log::Record::<'a>::")}
+        used |= {'now' for bb, t in b.calls() if re.search(r'^deferred_now::DeferredNow::(format|format_rfc3339|format_rfc3164|now|now_utc_owned)$', callee_name(t))}
+        used |= {'thread' for bb, t in b.calls() if callee_name(t) == 'std::thread::Thread::name'}
+        used -= {'key_values', 'metadata', 'target'}
+        fields_used[short] = used
+        doc = DOC_FIELDS.get(short[8:] if short.startswith('colored_') else short)
+        if doc is not None and p.startswith('formats::'):
+            R.check('R20.4', f"{p}|documented-fields", used == doc, f"shows {sorted(used)}", f"format function {p} takes {sorted(used)} from the record / now / thread; "
+                    f"documented: {sorted(doc)} (missing {sorted(doc - used)}, extra {sorted(used - doc)})", where=b.loc())
         # level / location fields come from the record's accessors
         if not p.startswith('writers::syslog::'):
             acc = {callee_name(t).split('::')[-1] for bb, t in b.calls() if callee_name(t).startswith("log::Record::<'a>::")}
             need = {'level', 'args'}
             R.check('R20.4', f"{p}|accessors", need <= acc, f"uses record accessors {sorted(acc)}", f"format function {p} does not take {sorted(need - acc)} from the record", where=b.loc())
+    for short, used in sorted(fields_used.items()):
+        if short.startswith('colored_') and short[8:] in fields_used:
+            R.check('R20.4', f"formats::{short}|same-fields-as-plain", used == fields_used[short[8:]], f"colored and plain variant show {sorted(used)}",
+                    f"{short} shows {sorted(used)}, its plain twin {sorted(fields_used[short[8:]])}: documented as `a colored version of` it", where='src/formats.rs')
+
